@@ -30,6 +30,15 @@ pub struct RdpClient<S> {
 }
 
 impl<S: Read + Write> RdpClient<S> {
+    /// Verification hook: assemble a client from already connected layers
+    #[cfg(rdp_rs_verif)]
+    pub fn verif_new(mcs: mcs::Client<S>, global: global::Client) -> Self {
+        RdpClient {
+            mcs,
+            global
+        }
+    }
+
     /// Read a payload from the server
     /// RDpClient use a callback pattern that can be called more than once
     /// during a read call
